@@ -95,6 +95,18 @@ func verifOperator() Operator {
 	}
 	n := verifrt.Len("nargs", 0, 2)
 	for i := 0; i < n; i++ {
+		if i > 0 && verifrt.Tier() == 0 {
+			// quick tier: the second operand comes from a short menu
+			switch verifrt.Choice("operand2", 3) {
+			case 0:
+				op.Args = append(op.Args, pdf.Integer(7))
+			case 1:
+				op.Args = append(op.Args, pdf.Name("N"))
+			default:
+				op.Args = append(op.Args, pdf.String(verifrt.Bytes("str2", 1)))
+			}
+			continue
+		}
 		op.Args = append(op.Args, verifOperand())
 	}
 	return op
